@@ -11,9 +11,11 @@ Local Arguments u32_bytes : simpl never.
 Local Arguments u16_bytes : simpl never.
 
 (** ** the fragment: result-less blocks entered at an empty operand stack *)
+Definition jt_ok (f : vframe) (j : jump_target) : Prop :=
+  (exists locs, j = JUnknown locs None /\ (vf_is_if f = true -> locs <> []))
+  \/ (exists pos, j = JKnown pos /\ vf_is_if f = false).      (* a loop: the target is its start *)
 Definition frame_ok (f : vframe) (j : jump_target) : Prop :=
-  vf_height f = 0%nat /\ vf_label f = None /\ vf_end f = None /\
-  exists locs, j = JUnknown locs None /\ (vf_is_if f = true -> locs <> []).
+  vf_height f = 0%nat /\ vf_label f = None /\ vf_end f = None /\ jt_ok f j.
 
 Definition vmode (v : vstate) : Prop :=
   v_unreach v = None \/
@@ -27,33 +29,40 @@ Record inv (nl : Z) (s : cstate) (v : vstate) : Prop := {
   i_mode : vmode v
 }.
 
-Definition bp_sub (b b' : list jump_target) : Prop :=
-  Forall2 (fun j j' => exists locs add, j = JUnknown locs None /\ j' = JUnknown (locs ++ add) None) b b'.
+Definition jt_sub (j j' : jump_target) : Prop :=
+  (exists locs add, j = JUnknown locs None /\ j' = JUnknown (locs ++ add) None) \/ (exists pos, j = JKnown pos /\ j' = JKnown pos).
+Definition bp_sub (b b' : list jump_target) : Prop := Forall2 jt_sub b b'.
+Lemma jt_sub_refl f j : frame_ok f j -> jt_sub j j.
+Proof.
+  intros (_ & _ & _ & [(locs & -> & _)|(pos & -> & _)]); [left; exists locs, []; rewrite app_nil_r; auto|right; exists pos; auto].
+Qed.
 
 Lemma bp_sub_refl ctrls bp : Forall2 frame_ok ctrls bp -> bp_sub bp bp.
 Proof.
-  induction 1 as [|f j ? ? (_ & _ & _ & locs & -> & _)]; constructor; auto. exists locs, []. rewrite app_nil_r. auto.
+  induction 1 as [|f j ? ? Hf]; constructor; auto. eapply jt_sub_refl; eauto.
 Qed.
 Lemma bp_sub_trans a b d : bp_sub a b -> bp_sub b d -> bp_sub a d.
 Proof.
-  intros H. revert d. induction H as [|j j' ? ? (locs & add & -> & ->)]; intros d H2; inversion H2 as [|? j'' ? ? (l2 & a2 & E & ->)]; subst.
+  intros H. revert d. induction H as [|j j' ? ? Hj]; intros d H2; inversion H2 as [|? j'' ? ? Hj2]; subst.
   - constructor.
   - constructor; [|apply IHForall2; assumption].
-    inversion E; subst. exists locs, (add ++ a2). rewrite app_assoc. auto.
+    destruct Hj as [(locs & add & -> & ->)|(pos & -> & ->)], Hj2 as [(l2 & a2 & E & ->)|(pos2 & E & ->)]; try discriminate E.
+    + inversion E; subst. left. exists locs, (add ++ a2). rewrite app_assoc. auto.
+    + right. exists pos. auto.
 Qed.
 Lemma bp_sub_update ctrls : forall bp k locs x,
   Forall2 frame_ok ctrls bp -> nth_error bp k = Some (JUnknown locs None) ->
   bp_sub bp (update_nth bp k (JUnknown (locs ++ [x]) None)).
 Proof.
   intros bp k locs x H. revert k. induction H as [|f j ? ? Hf]; intros [|k] E; cbn in E; try discriminate.
-  - inversion E; subst. cbn. constructor; [exists locs, [x]; auto|eapply bp_sub_refl; eauto].
-  - cbn. constructor; [|apply IHForall2; exact E]. destruct Hf as (_ & _ & _ & l0 & -> & _). exists l0, []. rewrite app_nil_r. auto.
+  - inversion E; subst. cbn. constructor; [left; exists locs, [x]; auto|eapply bp_sub_refl; eauto].
+  - cbn. constructor; [|apply IHForall2; exact E]. eapply jt_sub_refl; eauto.
 Qed.
 Lemma frames_update ctrls : forall bp k locs x,
   Forall2 frame_ok ctrls bp -> Forall2 frame_ok ctrls (update_nth bp k (JUnknown (locs ++ [x]) None)).
 Proof.
   intros bp k locs x H. revert k. induction H as [|f j ? ? Hf]; intros [|k]; cbn; constructor; auto.
-  destruct Hf as (A & B & C & _). repeat split; auto. eexists; split; [reflexivity|]. intros _. destruct locs; discriminate.
+  destruct Hf as (A & B & C & _). repeat split; auto. left. eexists; split; [reflexivity|]. intros _. destruct locs; discriminate.
 Qed.
 
 Lemma truncate_n_spec nl : forall k s s', truncate_n k s = Some s' -> cwf nl s ->
@@ -77,10 +86,10 @@ Proof.
 Qed.
 
 Lemma frames_nth ctrls bp k f : Forall2 frame_ok ctrls bp -> nth_error ctrls k = Some f ->
-  vf_label f = None /\ exists locs, nth_error bp k = Some (JUnknown locs None).
+  vf_label f = None /\ ((exists locs, nth_error bp k = Some (JUnknown locs None)) \/ (exists pos, nth_error bp k = Some (JKnown pos))).
 Proof.
   intros H. revert k. induction H as [|g j ? ? Hf]; intros [|k] E; cbn in E; try discriminate.
-  - inversion E; subst. destruct Hf as (_ & B & _ & locs & -> & _). split; auto. exists locs. reflexivity.
+  - inversion E; subst. destruct Hf as (_ & B & _ & [(locs & -> & _)|(pos & -> & _)]); split; auto; [left; exists locs|right; exists pos]; reflexivity.
   - cbn. eauto.
 Qed.
 
@@ -111,14 +120,14 @@ Proof.
   destruct I as [W B L Fr Md]. constructor; cbn; auto.
   - eapply cwf_same; [|exact W]. unfold same_alloc; cbn; tauto.
   - destruct B as [B1 B2 B3]. constructor; cbn; auto.
-  - constructor; auto. repeat split; cbn; auto. eexists; split; [reflexivity|discriminate].
+  - constructor; auto. repeat split; cbn; auto. left. eexists; split; [reflexivity|discriminate].
   - left. exact Hu.
 Qed.
 
 Lemma frames_cons f r bp : Forall2 frame_ok (f :: r) bp ->
   vf_height f = 0%nat /\ vf_label f = None /\ vf_end f = None /\
-  exists locs bp', bp = JUnknown locs None :: bp' /\ Forall2 frame_ok r bp' /\ (vf_is_if f = true -> locs <> []).
-Proof. intros H. inversion H as [|? j ? bp' (A & B & C & locs & -> & D) Fr']; subst. splits; auto. exists locs, bp'. auto. Qed.
+  exists j bp', bp = j :: bp' /\ Forall2 frame_ok r bp' /\ jt_ok f j.
+Proof. intros H. inversion H as [|? j ? bp' (A & B & C & D) Fr']; subst. splits; auto. exists j, bp'. auto. Qed.
 
 (** *** if *)
 Lemma op_if nl cx s v v1 s1 :
@@ -161,7 +170,7 @@ Proof.
     + destruct W2 as [A1 A2 A3 A4 A5]. constructor; try rewrite F3; try rewrite F4; try rewrite F5; try rewrite F7; try rewrite <- En; try rewrite <- Ecs; auto.
     + eapply (bpwf_add s s1 (cur_off s + 5) [] (all_locs (c_bp s))); auto; try lia.
     + rewrite F3. reflexivity.
-    + rewrite F2. constructor; [repeat split; cbn; auto; eexists; split; [reflexivity|discriminate]|exact Fr].
+    + rewrite F2. constructor; [repeat split; cbn; auto; left; eexists; split; [reflexivity|discriminate]|exact Fr].
     + left. exact Hu.
   - eapply (ext_add s s1 _ (cur_off s + 5) [] (all_locs (c_bp s))); eauto; try lia.
 Qed.
@@ -199,28 +208,67 @@ Proof.
   replace (S (length r) - 1)%nat with (length r) by lia. rewrite Nat.eqb_refl. reflexivity.
 Qed.
 
+Lemma handle_end_known cx s v reach pos bp' :
+  reach = Reachable \/ reach = UnreachableInstruction -> c_bp s = JKnown pos :: bp' -> v_opds v = 0%nat ->
+  handle_opcode cx s v reach OEnd =
+  if (length (c_stack s) =? 0)%nat then Some (set_bp (set_last s None) bp') else None.
+Proof.
+  intros [->| ->] E H0; unfold handle_opcode; cbv beta iota zeta; cbn [set_last c_bp]; rewrite E;
+    cbn [set_bp c_stack negb andb]; rewrite H0;
+    replace (length (c_stack s) <? 0)%nat with false by (symmetry; apply Nat.ltb_ge; lia); reflexivity.
+Qed.
+
 Lemma op_end nl cx s v v1 s1 :
   inv nl s v -> vstep cx v OEnd = Some v1 -> handle_opcode cx s v1 (v_reachability v) OEnd = Some s1 ->
-  exists locs bp', c_bp s = JUnknown locs None :: bp' /\ c_bp s1 = bp' /\ c_stack s = [] /\ c_stack s1 = []
+  exists j bp', c_bp s = j :: bp' /\ c_bp s1 = bp' /\ c_stack s = [] /\ c_stack s1 = []
   /\ c_next s1 = c_next s /\ c_consts s1 = c_consts s /\ c_last s1 = None /\ cur_off s1 = cur_off s /\ ext s s1
-  /\ (forall loc, In loc locs -> resolved s1 loc (cur_off s)) /\ inv nl s1 v1 /\ v_unreach v1 = None.
+  /\ (forall loc, In loc (locs_of j) -> resolved s1 loc (cur_off s)) /\ inv nl s1 v1 /\ v_unreach v1 = None.
 Proof.
   intros I Hv Hh. destruct I as [W B L Fr Md].
   cbn [vstep] in Hv. destruct (v_pop_ctrl v) as [[[res isif] v2]|] eqn:Ep; [|discriminate].
   destruct (v_ctrls v) as [|f r] eqn:Ec; [unfold v_pop_ctrl in Ep; rewrite Ec in Ep; discriminate|].
   destruct (pop_ctrl_inv v f r (c_bp s) Md Ec Fr _ Ep) as [E0 Ex]. inversion Ex; subst res isif v2; clear Ex.
   cbn [bt_arity v_pushn] in Hv. inversion Hv; subst v1; clear Hv.
-  destruct (frames_cons _ _ _ Fr) as (_ & _ & _ & locs & bp' & Ebp & Fr' & _).
-  rewrite (handle_end cx s _ _ locs bp' (mode_reach v Md) Ebp) in Hh. cbv zeta in Hh. apply checked2 in Hh.
-  destruct Hh as [Hs1 _]. symmetry in Hs1.
-  destruct (end_patch s locs bp' s1 B Ebp Hs1) as (A1 & A2 & A3 & A4 & A5 & A6 & A7 & A8 & A9 & A10).
   assert (Est : c_stack s = []) by (destruct (c_stack s); [reflexivity|cbn in L; lia]).
-  exists locs, bp'. splits; auto; try congruence.
-  constructor; cbn [v_opds v_ctrls v_unreach]; auto.
-  - eapply cwf_same; [|exact W]. unfold same_alloc. auto.
-  - rewrite A2, Est. reflexivity.
-  - rewrite A1. exact Fr'.
-  - left. reflexivity.
+  destruct (frames_cons _ _ _ Fr) as (_ & _ & _ & j & bp' & Ebp & Fr' & [(locs & -> & _)|(pos & -> & _)]).
+  - rewrite (handle_end cx s _ _ locs bp' (mode_reach v Md) Ebp) in Hh. cbv zeta in Hh. apply checked2 in Hh.
+    destruct Hh as [Hs1 _]. symmetry in Hs1.
+    destruct (end_patch s locs bp' s1 B Ebp Hs1) as (A1 & A2 & A3 & A4 & A5 & A6 & A7 & A8 & A9 & A10).
+    exists (JUnknown locs None), bp'. splits; auto; try congruence.
+    constructor; cbn [v_opds v_ctrls v_unreach]; auto.
+    + eapply cwf_same; [|exact W]. unfold same_alloc. auto.
+    + rewrite A2, Est. reflexivity.
+    + rewrite A1. exact Fr'.
+    + left. reflexivity.
+  - rewrite (handle_end_known cx s {| v_opds := 0; v_ctrls := r; v_unreach := None |} _ pos bp' (mode_reach v Md) Ebp eq_refl) in Hh. rewrite Est in Hh. cbn in Hh.
+    inversion Hh; subst s1; clear Hh. cbn [set_bp set_last c_out c_bp c_stack c_next c_reuse c_consts c_last].
+    exists (JKnown pos), bp'. splits; auto.
+    + apply (ext_same_locs s _ []); cbn; [rewrite app_nil_r; reflexivity|rewrite Ebp; reflexivity].
+    + intros loc [].
+    + constructor; cbn [v_opds v_ctrls v_unreach set_bp set_last c_out c_bp c_stack c_next c_reuse c_consts c_last]; auto.
+      * eapply cwf_same; [|exact W]. unfold same_alloc. cbn. auto.
+      * eapply (bpwf_same_locs s); [exact B|cbn; rewrite Ebp; reflexivity|unfold cur_off; cbn; lia].
+      * rewrite Est. reflexivity.
+      * left. reflexivity.
+Qed.
+
+(** *** loop *)
+Lemma op_loop nl cx s v v1 s1 :
+  inv nl s v -> v_unreach v = None -> v_opds v = 0%nat ->
+  vstep cx v (OLoop None) = Some v1 -> handle_opcode cx s v1 Reachable (OLoop None) = Some s1 ->
+  c_out s1 = c_out s /\ c_bp s1 = JKnown (cur_off s) :: c_bp s /\ same_alloc s s1 /\ c_last s1 = None
+  /\ inv nl s1 v1 /\ v_unreach v1 = None.
+Proof.
+  intros I Hu H0 Hv Hh. cbn [vstep] in Hv. inversion Hv; subst v1; clear Hv.
+  unfold handle_opcode in Hh. cbv beta iota zeta in Hh. apply checked2 in Hh. destruct Hh as [Hh Hl].
+  subst s1. cbn [set_bp set_last c_out c_bp c_stack c_next c_reuse c_consts c_last v_push_ctrl v_unreach v_opds v_ctrls] in *.
+  change (cur_off (set_last s None)) with (cur_off s).
+  splits; auto; try (unfold same_alloc; cbn; tauto).
+  destruct I as [W B L Fr Md]. constructor; cbn; auto.
+  - eapply cwf_same; [|exact W]. unfold same_alloc; cbn; tauto.
+  - destruct B as [B1 B2 B3]. constructor; cbn; auto.
+  - constructor; auto. repeat split; cbn; auto. right. eexists; split; reflexivity.
+  - left. exact Hu.
 Qed.
 
 (** *** br / br_if to a result-less label *)
@@ -229,18 +277,17 @@ Lemma frames_mark f r bp : Forall2 frame_ok (f :: r) bp ->
                        vf_unreachable := true |} :: r) bp.
 Proof. intros H. inversion H as [|? j ? bp' (A & B & C & D) Fr']; subst. constructor; auto. repeat split; auto. Qed.
 
-Lemma op_br nl cx s v v1 s1 k :
-  inv nl s v -> v_unreach v = None ->
+Lemma op_br nl cx s v v1 s1 k locs :
+  inv nl s v -> v_unreach v = None -> nth_error (c_bp s) k = Some (JUnknown locs None) ->
   vstep cx v (OBasic (BBr k)) = Some v1 -> handle_opcode cx s v1 Reachable (OBasic (BBr k)) = Some s1 ->
-  exists locs, nth_error (c_bp s) k = Some (JUnknown locs None)
-  /\ c_out s1 = c_out s ++ IBr :: u32_bytes 0
+  c_out s1 = c_out s ++ IBr :: u32_bytes 0
   /\ c_bp s1 = update_nth (c_bp s) k (JUnknown (locs ++ [cur_off s + 1]) None)
   /\ c_stack s1 = [] /\ c_next s1 = c_next s /\ c_consts s1 = c_consts s /\ c_last s1 = None
   /\ inv nl s1 v1 /\ v_unreach v1 <> None /\ ext s s1.
 Proof.
-  intros I Hu Hv Hh. destruct I as [W B L Fr Md].
+  intros I Hu Enth Hv Hh. destruct I as [W B L Fr Md].
   cbn [vstep] in Hv. unfold label_type in Hv. destruct (nth_error (v_ctrls v) k) as [fk|] eqn:Ek; [|discriminate].
-  destruct (frames_nth _ _ k fk Fr Ek) as (Fl & locs & Enth). rewrite Fl in Hv. cbn [bt_arity v_popn] in Hv.
+  destruct (frames_nth _ _ k fk Fr Ek) as (Fl & _). rewrite Fl in Hv. cbn [bt_arity v_popn] in Hv.
   unfold v_mark_unreachable in Hv. destruct (v_ctrls v) as [|f r] eqn:Ec; [discriminate|]. rewrite Hu in Hv.
   inversion Hv; subst v1; clear Hv. destruct (frames_cons _ _ _ Fr) as (Fh & _).
   unfold handle_opcode in Hh. cbv beta iota zeta in Hh. apply checked in Hh. destruct Hh as [Hh Hl].
@@ -262,7 +309,7 @@ Proof.
   destruct (all_locs_update (c_bp s) k locs None (cur_off s + 1) Enth) as (A & Bl & EA & EB). rewrite <- O2 in EB.
   assert (Ecur : cur_off s1 = cur_off s + 5).
   { unfold cur_off. rewrite O1, app_length. cbn [length]. rewrite u32_bytes_length. lia. }
-  exists locs. splits; auto.
+  splits; auto.
   - constructor; cbn [v_opds v_ctrls v_unreach]; auto.
     + eapply (bpwf_add s s1 (cur_off s + 1) A Bl); auto; lia.
     + rewrite O2. apply frames_mark. apply frames_update. exact Fr.
@@ -271,18 +318,18 @@ Proof.
   - eapply (ext_add s s1 _ (cur_off s + 1) A Bl); eauto. lia.
 Qed.
 
-Lemma op_br_if nl cx s v v1 s1 k :
-  inv nl s v -> v_unreach v = None ->
+Lemma op_br_if nl cx s v v1 s1 k locs :
+  inv nl s v -> v_unreach v = None -> nth_error (c_bp s) k = Some (JUnknown locs None) ->
   vstep cx v (OBasic (BBrIf k)) = Some v1 -> handle_opcode cx s v1 Reachable (OBasic (BBrIf k)) = Some s1 ->
-  exists p rest locs, c_stack s = p :: rest /\ pwf nl s p /\ nth_error (c_bp s) k = Some (JUnknown locs None)
+  exists p rest, c_stack s = p :: rest /\ pwf nl s p
   /\ c_out s1 = c_out s ++ IBrIf :: u32_bytes 0 ++ i32_bytes (provider_idx p)
   /\ c_bp s1 = update_nth (c_bp s) k (JUnknown (locs ++ [cur_off s + 1]) None)
   /\ c_stack s1 = rest /\ c_next s1 = c_next s /\ c_consts s1 = c_consts s /\ c_last s1 = None
   /\ inv nl s1 v1 /\ v_unreach v1 = None /\ ext s s1.
 Proof.
-  intros I Hu Hv Hh. destruct I as [W B L Fr Md].
+  intros I Hu Enth Hv Hh. destruct I as [W B L Fr Md].
   cbn [vstep] in Hv. unfold label_type in Hv. destruct (nth_error (v_ctrls v) k) as [fk|] eqn:Ek; [|discriminate].
-  destruct (frames_nth _ _ k fk Fr Ek) as (Fl & locs & Enth). rewrite Fl in Hv.
+  destruct (frames_nth _ _ k fk Fr Ek) as (Fl & _). rewrite Fl in Hv.
   destruct (v_pop v) as [v2|] eqn:Epop; [|discriminate]. cbn [bt_arity v_popn v_pushn] in Hv. inversion Hv; subst v2; clear Hv.
   unfold handle_opcode in Hh. cbv beta iota zeta in Hh. apply checked in Hh. destruct Hh as [Hh Hl].
   assert (W0 : cwf nl (set_last s None)) by (eapply cwf_same; [|exact W]; unfold same_alloc; cbn; tauto).
@@ -312,7 +359,7 @@ Proof.
     destruct (v_opds v =? vf_height f)%nat; [destruct (vf_unreachable f); [|discriminate]|];
       inversion Epop; subst v1; cbn; rewrite ?Ec; splits; auto; left; auto. }
   destruct Ev as (Ev1 & Ev2 & Ev3).
-  exists p, (c_stack s2), locs. splits; auto; try congruence.
+  exists p, (c_stack s2). splits; auto; try congruence.
   - constructor; auto.
     + eapply cwf_same; [|exact W2]. unfold same_alloc; auto.
     + eapply (bpwf_add s s1 (cur_off s + 1) A Bl); auto; lia.
@@ -376,7 +423,7 @@ Proof.
   destruct (v_ctrls v) as [|f r] eqn:Ec; [unfold v_pop_ctrl in Ep; rewrite Ec in Ep; discriminate|].
   destruct (pop_ctrl_inv v f r (c_bp s) Md Ec Fr _ Ep) as [E0 Ex]. inversion Ex; subst res isif v2; clear Ex.
   destruct (vf_is_if f) eqn:Eif; [|discriminate]. inversion Hv; subst v1; clear Hv.
-  destruct (frames_cons _ _ _ Fr) as (_ & _ & _ & locs & bp' & Ebp & Fr' & Hne).
+  destruct (frames_cons _ _ _ Fr) as (_ & _ & _ & j0 & bp' & Ebp & Fr' & [(locs & -> & Hne)|(pos & -> & Hk)]); [|congruence].
   destruct locs as [|first more]; [exfalso; apply (Hne Eif); reflexivity|].
   rewrite (handle_else cx s _ _ (first :: more) bp' (mode_reach v Md) Ebp) in Hh. cbv zeta in Hh.
   cbn [app] in Hh. apply checked2 in Hh. destruct Hh as [Hs1 _].
@@ -435,6 +482,127 @@ Proof.
   - constructor; cbn [v_push_ctrl v_opds v_ctrls v_unreach]; auto.
     + eapply cwf_same; [|exact W]. unfold same_alloc. auto.
     + rewrite F3, Est. reflexivity.
-    + rewrite F2. constructor; [|exact Fr']. repeat split; cbn; auto. eexists; split; [reflexivity|discriminate].
+    + rewrite F2. constructor; [|exact Fr']. repeat split; cbn; auto. left. eexists; split; [reflexivity|discriminate].
     + left. reflexivity.
+Qed.
+
+(** *** br / br_if to a loop label (known target), unreachable *)
+Lemma bp_target nl s v k f : inv nl s v -> nth_error (v_ctrls v) k = Some f ->
+  (exists locs, nth_error (c_bp s) k = Some (JUnknown locs None)) \/ (exists pos, nth_error (c_bp s) k = Some (JKnown pos)).
+Proof. intros I E. apply (frames_nth _ _ k f (i_frames _ _ _ I) E). Qed.
+
+Lemma br_target cx v k v1 : vstep cx v (OBasic (BBr k)) = Some v1 -> exists f, nth_error (v_ctrls v) k = Some f.
+Proof. cbn [vstep]. unfold label_type. destruct (nth_error (v_ctrls v) k); [eauto|discriminate]. Qed.
+Lemma br_if_target cx v k v1 : vstep cx v (OBasic (BBrIf k)) = Some v1 -> exists f, nth_error (v_ctrls v) k = Some f.
+Proof. cbn [vstep]. unfold label_type. destruct (nth_error (v_ctrls v) k); [eauto|discriminate]. Qed.
+
+Lemma terminated_state nl s v f r s2 s1 (t : list N) :
+  cwf nl s -> bpwf s -> Forall2 frame_ok (f :: r) (c_bp s) -> v_ctrls v = f :: r ->
+  c_out s2 = c_out s ++ t -> c_bp s2 = c_bp s -> c_last s2 = None -> c_next s2 = c_next s -> c_consts s2 = c_consts s ->
+  cwf nl s2 -> truncate_n (length (c_stack s2) - vf_height f) s2 = Some s1 ->
+  length (c_stack s1) = vf_height f ->
+  c_out s1 = c_out s ++ t /\ c_bp s1 = c_bp s /\ c_stack s1 = [] /\ c_next s1 = c_next s /\ c_consts s1 = c_consts s
+  /\ c_last s1 = None
+  /\ inv nl s1 {| v_opds := vf_height f;
+                  v_ctrls := {| vf_is_if := vf_is_if f; vf_label := vf_label f; vf_end := vf_end f;
+                                vf_height := vf_height f; vf_unreachable := true |} :: r;
+                  v_unreach := Some (length r) |}
+  /\ ext s s1.
+Proof.
+  intros W B Fr Ec S1 S2 S3 S4 S5 W2 Hh Hl.
+  destruct (truncate_n_spec nl _ s2 s1 Hh W2) as ((O1 & O2 & O3) & En & Ecs & W1 & Ln).
+  destruct (frames_cons _ _ _ Fr) as (Fh & _).
+  assert (Est : c_stack s1 = []) by (destruct (c_stack s1); [reflexivity|cbn in Hl; rewrite Fh in Hl; discriminate]).
+  assert (X : ext s s1) by (eapply ext_append; [rewrite O1; exact S1|congruence]).
+  splits; auto; try congruence.
+  constructor; cbn [v_opds v_ctrls v_unreach]; auto.
+  - eapply bpwf_same_locs; [exact B|rewrite O2, S2; reflexivity|destruct X as [Hle _]; unfold cur_off; lia].
+  - rewrite O2, S2. apply frames_mark. exact Fr.
+  - right. cbn [v_unreach v_ctrls v_opds length]. splits; auto; try discriminate. f_equal. lia.
+Qed.
+
+Lemma op_br_known nl cx s v v1 s1 k pos :
+  inv nl s v -> v_unreach v = None -> nth_error (c_bp s) k = Some (JKnown pos) ->
+  vstep cx v (OBasic (BBr k)) = Some v1 -> handle_opcode cx s v1 Reachable (OBasic (BBr k)) = Some s1 ->
+  c_out s1 = c_out s ++ IBr :: u32_bytes pos /\ c_bp s1 = c_bp s
+  /\ c_stack s1 = [] /\ c_next s1 = c_next s /\ c_consts s1 = c_consts s /\ c_last s1 = None
+  /\ inv nl s1 v1 /\ v_unreach v1 <> None /\ ext s s1.
+Proof.
+  intros I Hu Enth Hv Hh. destruct I as [W B L Fr Md].
+  cbn [vstep] in Hv. unfold label_type in Hv. destruct (nth_error (v_ctrls v) k) as [fk|] eqn:Ek; [|discriminate].
+  destruct (frames_nth _ _ k fk Fr Ek) as (Fl & _). rewrite Fl in Hv. cbn [bt_arity v_popn] in Hv.
+  unfold v_mark_unreachable in Hv. destruct (v_ctrls v) as [|f r] eqn:Ec; [discriminate|]. rewrite Hu in Hv.
+  inversion Hv; subst v1; clear Hv.
+  unfold handle_opcode in Hh. cbv beta iota zeta in Hh. apply checked in Hh. destruct Hh as [Hh Hl].
+  cbn [v_opds] in Hh, Hl.
+  unfold push_br_jump in Hh. cbn [set_last c_bp] in Hh. rewrite Enth in Hh.
+  unfold insert_jump_location in Hh. cbn [push_op emit set_out c_bp set_last] in Hh. rewrite Enth in Hh.
+  set (s2 := emit _ (u32_bytes pos)) in Hh. unfold truncate in Hh.
+  assert (W2 : cwf nl s2) by (eapply cwf_same; [|exact W]; unfold same_alloc; cbn; tauto).
+  assert (S1 : c_out s2 = c_out s ++ IBr :: u32_bytes pos) by (subst s2; cbn; rewrite <- app_assoc; reflexivity).
+  destruct (terminated_state nl s v f r s2 s1 _ W B Fr Ec S1 eq_refl eq_refl eq_refl eq_refl W2 Hh Hl)
+    as (A1 & A2 & A3 & A4 & A5 & A6 & A7 & A8).
+  splits; auto. cbn. discriminate.
+Qed.
+
+Lemma op_unreachable nl cx s v v1 s1 :
+  inv nl s v -> v_unreach v = None ->
+  vstep cx v (OBasic BUnreachable) = Some v1 -> handle_opcode cx s v1 Reachable (OBasic BUnreachable) = Some s1 ->
+  c_out s1 = c_out s ++ [IUnreachable] /\ c_bp s1 = c_bp s
+  /\ c_stack s1 = [] /\ c_next s1 = c_next s /\ c_consts s1 = c_consts s /\ c_last s1 = None
+  /\ inv nl s1 v1 /\ v_unreach v1 <> None /\ ext s s1.
+Proof.
+  intros I Hu Hv Hh. destruct I as [W B L Fr Md].
+  cbn [vstep] in Hv. unfold v_mark_unreachable in Hv. destruct (v_ctrls v) as [|f r] eqn:Ec; [discriminate|]. rewrite Hu in Hv.
+  inversion Hv; subst v1; clear Hv.
+  unfold handle_opcode in Hh. cbv beta iota zeta in Hh. apply checked in Hh. destruct Hh as [Hh Hl].
+  cbn [v_opds] in Hh, Hl. unfold truncate in Hh.
+  set (s2 := push_op (set_last s None) IUnreachable) in *.
+  assert (W2 : cwf nl s2) by (eapply cwf_same; [|exact W]; unfold same_alloc; cbn; tauto).
+  destruct (terminated_state nl s v f r s2 s1 [IUnreachable] W B Fr Ec eq_refl eq_refl eq_refl eq_refl eq_refl W2 Hh Hl)
+    as (A1 & A2 & A3 & A4 & A5 & A6 & A7 & A8).
+  splits; auto. cbn. discriminate.
+Qed.
+
+Lemma op_br_if_known nl cx s v v1 s1 k pos :
+  inv nl s v -> v_unreach v = None -> nth_error (c_bp s) k = Some (JKnown pos) ->
+  vstep cx v (OBasic (BBrIf k)) = Some v1 -> handle_opcode cx s v1 Reachable (OBasic (BBrIf k)) = Some s1 ->
+  exists p rest, c_stack s = p :: rest /\ pwf nl s p
+  /\ c_out s1 = c_out s ++ IBrIf :: u32_bytes pos ++ i32_bytes (provider_idx p)
+  /\ c_bp s1 = c_bp s
+  /\ c_stack s1 = rest /\ c_next s1 = c_next s /\ c_consts s1 = c_consts s /\ c_last s1 = None
+  /\ inv nl s1 v1 /\ v_unreach v1 = None /\ ext s s1.
+Proof.
+  intros I Hu Enth Hv Hh. destruct I as [W B L Fr Md].
+  cbn [vstep] in Hv. unfold label_type in Hv. destruct (nth_error (v_ctrls v) k) as [fk|] eqn:Ek; [|discriminate].
+  destruct (frames_nth _ _ k fk Fr Ek) as (Fl & _). rewrite Fl in Hv.
+  destruct (v_pop v) as [v2|] eqn:Epop; [|discriminate]. cbn [bt_arity v_popn v_pushn] in Hv. inversion Hv; subst v2; clear Hv.
+  unfold handle_opcode in Hh. cbv beta iota zeta in Hh. apply checked in Hh. destruct Hh as [Hh Hl].
+  assert (W0 : cwf nl (set_last s None)) by (eapply cwf_same; [|exact W]; unfold same_alloc; cbn; tauto).
+  destruct (consume (set_last s None)) as [[p s2]|] eqn:Econs; [|discriminate].
+  destruct (consume_spec nl _ p s2 Econs W0) as (Es & (O1 & O2 & O3) & En & Ecs & W2 & Pp).
+  cbn [set_last c_out c_bp c_stack c_next c_reuse c_consts c_last] in Es, O1, O2, O3, En, Ecs.
+  unfold push_br_if_jump in Hh. rewrite O2, Enth in Hh.
+  unfold insert_jump_location in Hh. change (c_bp (push_op s2 IBrIf)) with (c_bp s2) in Hh. rewrite O2, Enth in Hh.
+  injection Hh as Hs1.
+  assert (F1 : c_out s1 = c_out s ++ IBrIf :: u32_bytes pos ++ i32_bytes (provider_idx p)).
+  { subst s1. cbn [push_loc emit set_out set_bp c_out push_op]. rewrite O1, <- !app_assoc. reflexivity. }
+  assert (F2 : c_bp s1 = c_bp s) by (subst s1; cbn; exact O2).
+  assert (F3 : c_stack s1 = c_stack s2) by (subst s1; reflexivity).
+  assert (F4 : c_next s1 = c_next s2) by (subst s1; reflexivity).
+  assert (F5 : c_consts s1 = c_consts s2) by (subst s1; reflexivity).
+  assert (F6 : c_last s1 = c_last s2) by (subst s1; reflexivity).
+  assert (F7 : c_reuse s1 = c_reuse s2) by (subst s1; reflexivity).
+  clear Hs1.
+  assert (Ev : v_unreach v1 = None /\ v_ctrls v1 = v_ctrls v /\ vmode v1).
+  { unfold v_pop in Epop. destruct (v_ctrls v) as [|f r] eqn:Ec; [discriminate|].
+    destruct (v_opds v =? vf_height f)%nat; [destruct (vf_unreachable f); [|discriminate]|];
+      inversion Epop; subst v1; cbn; rewrite ?Ec; splits; auto; left; auto. }
+  destruct Ev as (Ev1 & Ev2 & Ev3).
+  assert (X : ext s s1) by (eapply ext_append; eauto).
+  exists p, (c_stack s2). splits; auto; try congruence.
+  constructor; auto.
+  - eapply cwf_same; [|exact W2]. unfold same_alloc; auto.
+  - eapply bpwf_same_locs; [exact B|rewrite F2; reflexivity|destruct X as [Hle _]; unfold cur_off; lia].
+  - rewrite Ev2, F2. exact Fr.
 Qed.
